@@ -21,6 +21,11 @@ typedef struct sentence_s		sentence_t;
 typedef struct svalue_s			svalue_t;
 typedef struct userid_s			userid_t;
 
+/* INT64_MIN / -1 and INT64_MIN % -1 trap (SIGFPE) on x86: a divisor of -1 is handled without dividing, and the
+ * quotient wraps like every other LPC integer operation. */
+#define LPC_INT_DIV(a, b) ((b) == -1 ? (int64_t)(0 - (uint64_t)(a)) : (a) / (b))
+#define LPC_INT_MOD(a, b) ((b) == -1 ? (int64_t)0 : (a) % (b))
+
 typedef struct {
     unsigned int ref;
 } refed_t;
